@@ -348,3 +348,34 @@ def cli_grid(res, pid, tier, seed, known, quick=24, thorough=200, kinds=None):
     if mine:
         path = write_replay(pid, "cli_grid", {"property": pid, "obligation": "bounded:cli_grid", "failing_input": mine[0], "all": mine[:5]})
         res.violations.append({"replay": path})
+
+
+def runtime_standin(res, pid, module, name, seed, count, time_s, prefix=None, label=None, classify=None, known=None, crosscheck=False):
+    """Bounded stand-in: the runtime form of a contract on seeded random inputs (never counted as proved).
+    `classify(failure) -> known-finding obligation key or None` separates listed findings from new violations."""
+    r = run_native("runtime_check.py", {"module": module, "name": name, "seed": seed, "count": count, "time_s": time_s,
+                                        "prefix": prefix}, timeout=time_s + 600)
+    js = r["json"]
+    if js is None:
+        res.errors.append(("crash", f"runtime_check {module}.{name}: " + r["stderr"][-800:]))
+        return
+    fails = js["failures"]
+    new = []
+    hits = {}
+    for f in fails:
+        key = classify(f) if classify else None
+        k = match_known(known or [], pid, key) if key else None
+        if k is not None:
+            hits.setdefault(key, (k, f))
+        else:
+            new.append(f)
+    res.native.append({"name": label or f"runtime contract {module}.{name}", "bounded": not crosscheck, "crosscheck_only": crosscheck, "cases": js["cases"],
+                       "distinct_nontrivial": js["distinct_nontrivial"], "bounds": js["bounds"], "known_hits": len(fails) - len(new),
+                       "failures": new[:5], "samples": js["samples"][:2]})
+    for key, (k, f) in hits.items():
+        class _O:
+            oid = key
+        res.known.append((k, _O()))
+    if new:
+        path = write_replay(pid, f"runtime.{name}", {"property": pid, "obligation": f"bounded:{module}.{name}", "failing_input": new[0], "all": new[:5]})
+        res.violations.append({"replay": path})
